@@ -39,6 +39,8 @@ NAMED = {
     'SA': ('arr', STR),
     'SS': ('tup', [STR, STR], None),
     'SR': ('tup', [STR], STR),
+    'TU': ('tup', [NUM, ('ref', 'TU')], None),                                     # no finite value
+    'OU': obj({'v': (NUM, False), 'next': (('ref', 'OU'), False)}),                # no finite value
 }
 
 
@@ -175,7 +177,10 @@ def systematic_pairs():
     empties = [('and', [obj({'a': (STR, False)}), obj({'a': (NUM, False)})]),
                ('and', [('tup', [STR], None), ('tup', [NUM], None)]),
                ('and', [('tup', [STR], None), ('tup', [STR, STR], None)]),
-               ('and', [obj({'a': (lit(1), False)}), obj({'a': (lit(2), False), 'b': (STR, True)})])]
+               ('and', [obj({'a': (lit(1), False)}), obj({'a': (lit(2), False), 'b': (STR, True)})]),
+               # uninhabited without any intersection: a never member, recursion without a base case
+               ('tup', [STR, ('never',)], None), ('tup', [('never',)], STR), obj({'a': (('never',), False)}), ('ref', 'TU'), ('ref', 'OU'),
+               obj({'a': (('ref', 'TU'), False)}), ('tup', [('ref', 'OU')], None), ('arr', ('tup', [('never',)], None))]
     xs = [STR, obj({'a': (STR, False)}), ('arr', NUM), ('tup', [NUM], None)]
     for e in empties:
         out.append((e, ('never',)))
@@ -195,7 +200,95 @@ def systematic_pairs():
             out.append((i, ('never',)))
             out.append((a, i))
             out.append((i, ('tup', [STR, STR], None)))
+    # (4) a tag property that admits a string literal AND something else (null, a number, a second literal, absence), against a union of two
+    #     such objects: the difference of records must look at the whole type of the shared property, not only at its literal part
+    tagt = [lit('ok'), lit('err'), ('or', [lit('ok'), NULL]), ('or', [lit('err'), NULL]), ('or', [lit('ok'), lit('err')]), ('or', [lit('ok'), NUM]), STR]
+    lefts4 = [obj({'status': (t, o)}) for t in tagt for o in (False, True)]
+    members = [obj({'status': (t, o)}) for t, o in [(tagt[0], False), (tagt[1], False), (tagt[2], False), (tagt[3], False), (tagt[0], True), (tagt[1], True), (tagt[5], False)]]
+    members += [obj({'status': (tagt[0], False), 'x': (NUM, True)})]
+    for a in lefts4:
+        for i, m1 in enumerate(members):
+            for m2 in members[i + 1:]:
+                out.append((a, ('or', [m1, m2])))
     return out
+
+
+def conditional_pairs():
+    """pairs decided by the frontend itself while it evaluates `A extends B ? "y" : "n"` (the user-facing use of the decision; Exclude results are used
+    as semantic types here, without being materialised as named types first): literal sets with excluded literals, in every union order"""
+    def ex(base, *ls):
+        return ('and', [base, ('not', ('or', [lit(x) for x in ls]) if len(ls) > 1 else lit(ls[0]))])
+    e1, e12, es = ex(NUM, 1), ex(NUM, 1, 2), ex(STR, 'a')
+    xs = [NUM, STR, lit(1), lit(2), lit(3), lit('a'), lit('b'), e1, e12, es, ('ref', 'XN1'), ('ref', 'XSA'),
+          ('or', [('ref', 'XN1'), lit(1)]), ('or', [('ref', 'XN1'), lit(1), lit(2)]), ('or', [('ref', 'XN1'), lit(2)]), ('or', [lit(1), ('ref', 'XN1')]),
+          ('or', [e1, lit(1), lit(2)]), ('or', [('ref', 'XSA'), lit('a')]), ('or', [('ref', 'XSA'), lit('b')]), ('or', [e12, lit(1)]), ('or', [lit(1), lit(2)]),
+          ('and', [('ref', 'XN1'), ('or', [lit(1), lit(2)])]), ('and', [e1, e12]), ('or', [e1, es]), ('or', [('ref', 'XN1'), ('ref', 'XSA'), lit('a')]),
+          ('or', [lit(1), lit('a')]), ('or', [NUM, lit('a')]), ('and', [('or', [NUM, STR]), ('not', ('or', [lit(1), lit('a')]))])]
+    return [(a, b) for a in xs for b in xs if a is not b]
+
+
+COND_NAMED = {'XN1': ('and', [NUM, ('not', lit(1))]), 'XSA': ('and', [STR, ('not', lit('a'))])}
+
+
+def _cond_oracle(args):
+    k, a, b = args
+    env = dict(NAMED)
+    env.update(COND_NAMED)
+    try:
+        return k, oracle_incl(a, b, env)
+    except Exception:
+        import traceback
+        return k, ('unknown', 'oracle error: ' + traceback.format_exc()[-300:], {})
+
+
+def conditional_layer(rep):
+    pairs = conditional_pairs()
+    lines = [f'type {n} = {to_ts(t)};' for n, t in COND_NAMED.items()]
+    for k, (a, b) in enumerate(pairs):
+        lines.append(f'type R{k} = {to_ts(a)} extends {to_ts(b)} ? "y" : "n";')
+    lines.append('parse.buildParsers<{' + ', '.join(f'R{k}: R{k}' for k in range(len(pairs))) + '}>();')
+    src = '\n'.join(lines)
+    r = beffdrv('compile', {'files': {'entry.ts': src}, 'emit': False}, timeout=600)
+    if r.get('panic') or r.get('parse_error') or r.get('errors'):
+        # find the offending declarations one by one would be slow: report as inconclusive with the message (a panic of the frontend is C04's subject)
+        rep.note_inconclusive('conditional layer: the program does not compile: ' + json.dumps({x: r.get(x) for x in ('panic', 'parse_error', 'errors')})[:300])
+        return {'pairs': 0}
+    got = {}
+    for v in r.get('decoders', []):
+        sc = v['schema']
+        if v['name'].startswith('R') and sc.get('k') == 'const':
+            got[int(v['name'][1:])] = sc['v']
+    with mp.Pool(min(16, os.cpu_count() or 4)) as pool_:
+        orc = dict(pool_.imap_unordered(_cond_oracle, [(k, a, b) for k, (a, b) in enumerate(pairs)], chunksize=8))
+    st = {'pairs': len(pairs), 'agree': 0, 'unknown': 0, 'solver_s': 0.0}
+    for k, (a, b) in enumerate(pairs):
+        verdict, w, bounds = orc[k]
+        st['solver_s'] += bounds.get('solver_s', 0)
+        desc = f'{to_ts(a)}  extends  {to_ts(b)}'
+        if k not in got or verdict == 'unknown':
+            st['unknown'] += 1
+            continue
+        yes = got[k] == 'y'
+        one = '\n'.join(lines[:len(COND_NAMED)]) + f'\ntype R = {to_ts(a)} extends {to_ts(b)} ? "y" : "n";\nparse.buildParsers<{{R: R}}>();'
+        if yes == (verdict == 'incl'):
+            st['agree'] += 1
+            continue
+        # replay in isolation, dev and release
+        iso = [beffdrv('compile', {'files': {'entry.ts': one}, 'emit': False}, profile=pr, timeout=60) for pr in ('dev', 'release')]
+        vals = [[d['schema'].get('v') for d in x.get('decoders', []) if d['name'] == 'R'] for x in iso]
+        if not all(v == [got[k]] for v in vals):
+            rep.note_inconclusive(f'conditional disagreement for {desc} did not reproduce in isolation: {vals}')
+            continue
+        feats = sorted(features(a, dict(NAMED, **COND_NAMED)) | features(b, dict(NAMED, **COND_NAMED)))
+        shape = ('named-' if 'XN1' in desc or 'XSA' in desc else '') + 'excluded-literals'
+        if yes:
+            rep.violation(f'c05:conditional:accepts:{shape}', f'the conditional type takes the true branch, but {json.dumps(w)} is a value of the first type and not of the second: {desc}',
+                          {'cmd': 'compile', 'input': {'files': {'entry.ts': one}, 'emit': False}, 'witness': w})
+        else:
+            rep.violation(f'c05:conditional:rejects:{shape}', f'the conditional type takes the false branch, but no value of the first type lies outside the second (unsat, complete for these types): {desc}',
+                          {'cmd': 'compile', 'input': {'files': {'entry.ts': one}, 'emit': False}})
+    st['solver_s'] = round(st['solver_s'], 2)
+    return st
 
 
 def targeted_pairs2(rng, n):
@@ -490,6 +583,7 @@ def main(tier):
             stats['agree_incl' if x['sub'] else 'agree_not_incl'] += 1
             if len(samples) < 6 and (verdict == 'witness' or rng.random() < 0.01):
                 samples.append({'A': to_ts(a), 'B': to_ts(b), 'real_is_subtype': x['sub'], 'oracle': verdict, 'witness': w, 'bounds': bounds})
+    cond = conditional_layer(rep)
     if slow:
         rep.note_inconclusive(f'{slow} decisions took more than 5 s (termination watchdog)')
     if stats['oracle_unknown'] > len(pairs) // 20:
@@ -505,8 +599,8 @@ def main(tier):
         'rule': 'pairs over a grammar-generated pool of %d types (leaves, arrays, tuples with rest, objects with optional props / index signatures, '
                 'unions, intersections, named and (mutually) recursive refs); non-trivial = both sides decided and compared' % len(pool),
         'samples': samples[:6] or [{'A': to_ts(pool[0]), 'B': to_ts(pool[1])}],
-        'stats': stats,
-        'queries': len(pairs), 'solver_s': stats['solver_s'], 'native_s': round(native_s, 1), 'oracle_wall_s': round(oracle_s, 1),
+        'stats': stats, 'conditional_layer': cond,
+        'queries': len(pairs) + cond.get('pairs', 0), 'solver_s': stats['solver_s'], 'native_s': round(native_s, 1), 'oracle_wall_s': round(oracle_s, 1),
         'bounds': 'value template: depth = nesting depth of the two types (+2 for recursive types), arrays <= longest tuple prefix + 1, keys = declared '
                   'keys + 1 fresh, integers unbounded, strings = literals mentioned + unboundedly many fresh; complete for non-recursive types',
         'functions_under_test': ['ToSemType::to_sem_type', 'SemTypeOps::is_subtype', 'SemTypeOps::is_same_type', 'list_inhabited', 'check_mapping_empty'],
@@ -519,6 +613,6 @@ def main(tier):
 
 def replay(path):
     d = json.load(open(path))
-    r = beffdrv('subtype', d['replay']['input'])
+    r = beffdrv(d['replay'].get('cmd', 'subtype'), d['replay']['input'])
     print(json.dumps(r))
     return 0
